@@ -92,6 +92,7 @@ type FuncContract struct {
 	BackHints    map[int][]*Clause
 	BackAsserts  map[int][]*Clause
 	Imports      map[string][]string // wrapper -> labels of the delegate's ensures assumed at its call sites
+	DeadRets     map[int]string      // returns declared dead code (no cover obligation)
 	PostHints    []*Clause           // lemma applications instantiated at each return
 	Reads        []Expr              // restricts which fields of an operand are read (class D)
 	OutFields    []Expr              // single fields that are written on every return (class D)
@@ -465,7 +466,7 @@ var clauseKW = map[string]bool{
 	"func": true, "requires": true, "ensures": true, "assigns": true, "nilable": true, "fresh": true,
 	"trusted": true, "layer": true, "loop": true, "props": true, "define": true, "lemma": true,
 	"global": true, "outs": true, "operands": true, "defines": true, "hint": true, "pure": true,
-	"allocates": true, "sample": true, "reads": true, "posthint": true, "import": true, "exported": true, "axiom": true, "local": true, "reveal": true, "assert": true, "using": true, "delegates": true,
+	"allocates": true, "sample": true, "reads": true, "posthint": true, "import": true, "unreachable": true, "exported": true, "axiom": true, "local": true, "reveal": true, "assert": true, "using": true, "delegates": true,
 }
 
 var tagRe = regexp.MustCompile(`^\{([A-Za-z0-9_,\- ]*)\}\s*`)
@@ -616,6 +617,20 @@ func ParseSpecFile(path string) (*Spec, error) {
 					cur.Imports = map[string][]string{}
 				}
 				cur.Imports[strings.TrimSpace(rest[:k])] = strings.FieldsFunc(rest[k+1:], func(r rune) bool { return r == ',' || r == ' ' })
+			case "unreachable":
+				// unreachable retK: WHY - the K-th return is dead code (no cover obligation is generated for it)
+				var k int
+				var why string
+				if n, _ := fmt.Sscanf(rest, "ret%d", &k); n != 1 {
+					panic(fmt.Sprintf("line %d: unreachable needs retK", l.no))
+				}
+				if i := strings.Index(rest, ":"); i >= 0 {
+					why = strings.TrimSpace(rest[i+1:])
+				}
+				if cur.DeadRets == nil {
+					cur.DeadRets = map[int]string{}
+				}
+				cur.DeadRets[k] = why
 			case "posthint":
 				// a lemma instantiated at every return, in the return's environment (post state, ret values)
 				cur.PostHints = append(cur.PostHints, &Clause{Kind: "posthint", E: mustExpr(rest, l.no), Src: rest})
